@@ -248,9 +248,19 @@ def param_name(body, i):
 
 
 def upvar_name(body, k, actual):
+    """captured variables are named as in the reference table unless the capture list changed: the capture *index* follows the order of first use in
+    the closure body, so only the set of names is compared - a single renamed capture is mapped back to its reference name, anything else keeps the
+    actual names"""
     ref = _NAMES["upvars"].get(body.path)
-    if ref is not None and str(k) in ref:
-        return ref[str(k)]
+    if ref is None:
+        return actual
+    refnames = set(ref.values())
+    actual_names = set(u["name"] for u in (body.upvars or []))
+    if actual in refnames:
+        return actual
+    renamed, missing = actual_names - refnames, refnames - actual_names
+    if len(renamed) == 1 and len(missing) == 1 and actual in renamed:
+        return next(iter(missing))
     return actual
 
 
